@@ -55,9 +55,12 @@ def generate(rng, tier):
             as_ = rng.choice(["wcs", "lowlevel", "lowlevel", "header"])
             if kind in ("permuted", "other_types") and rng.random() < 0.7:
                 kind, shift = "same", [0] * nd
+        so = rng.choice(["explicit", "target", "target", "missing", "other", "override", "explicit_only"])
+        if so == "explicit_only" and rng.random() < 0.6:
+            as_ = "header"                  # (what WCS.to_header() gives: no NAXISn cards)
         yield {"order": order, "shape": shape, "kind": kind, "algo": algo, "shift": shift, "crpix_seed": rng.randrange(1000),
                "as": as_,
-               "shape_out": rng.choice(["explicit", "target", "target", "missing", "other", "override"]),
+               "shape_out": so,
                "footprint": rng.random() < 0.5}
 
 
@@ -112,7 +115,8 @@ def run(case):
         out_shape = [s + 1 if k == 0 else max(1, s - 1) for k, s in enumerate(shape)]
     # "override": the target advertises its own array shape (the source's) and a different shape_out is requested
     own_shape = list(shape) if case["shape_out"] == "override" else list(out_shape)
-    t = make_wcs(t_order, own_shape, case["crpix_seed"], with_shape=case["shape_out"] != "missing")
+    # ("explicit_only": the target itself carries no shape - e.g. a header without NAXISn - and shape_out is given)
+    t = make_wcs(t_order, own_shape, case["crpix_seed"], with_shape=case["shape_out"] not in ("missing", "explicit_only"))
     if case["kind"] == "other_types" and nd == 2 and "RA" in t_order:
         t.wcs.ctype = ["GLON-TAN", "GLAT-TAN"]
         t.wcs.set()
@@ -125,7 +129,7 @@ def run(case):
         target = SlicedLowLevelWCS(t, Ellipsis)
     elif case["as"] == "header":
         hdr = dict(t.to_header())
-        if case["shape_out"] != "missing":
+        if case["shape_out"] not in ("missing", "explicit_only"):
             for k, s in enumerate(own_shape[::-1]):
                 hdr[f"NAXIS{k + 1}"] = s
             hdr["NAXIS"] = nd
@@ -136,7 +140,7 @@ def run(case):
     else:
         target = t
     kw = {"algorithm": case["algo"], "return_footprint": case["footprint"]}
-    if case["shape_out"] in ("explicit", "other", "override"):
+    if case["shape_out"] in ("explicit", "other", "override", "explicit_only"):
         # a tuple, a list, or a tuple of numpy integers (what `array.shape` arithmetic gives)
         kw["shape_out"] = [tuple, list, lambda x: tuple(np.int64(v) for v in x)][case["crpix_seed"] % 3](out_shape)
     # ---- expectations
@@ -189,6 +193,9 @@ def run(case):
                 break
         if oll.pixel_n_dim != nd or [str(x) for x in oll.world_axis_physical_types] != tgt_types:
             fails.append("the result's wcs does not have the target's axes")
+        # (with "override" the target advertises another shape than the one requested: its own declaration stays)
+        if case["shape_out"] != "override" and oll.array_shape is not None and tuple(int(x) for x in oll.array_shape) != tuple(got.shape):
+            fails.append(f"the result's wcs declares array shape {tuple(oll.array_shape)} for data of shape {tuple(got.shape)}")
         if fp is not None and tuple(np.asarray(fp).shape) != tuple(out_shape):
             fails.append(f"footprint shape {np.asarray(fp).shape}, requested output shape {tuple(out_shape)}")
         if case["kind"] in ("same", "shift") and not fails:
@@ -217,8 +224,8 @@ def run(case):
     res["obs"] = {"status": status, "shape": None if status != "ok" else list(np.asarray(out.data).shape)}
     res["model_req"] = {"op": "reproject", "algo": case["algo"], "srcTypes": src_types, "tgtTypes": tgt_types,
                         "tgtPixDim": nd, "tgtWorldDim": nd, "tgtCelestialOnly": cel_only,
-                        "shapeOut": list(out_shape) if case["shape_out"] in ("explicit", "other", "override") else None,
-                        "tgtArrayShape": None if case["shape_out"] == "missing" else list(own_shape)}
+                        "shapeOut": list(out_shape) if case["shape_out"] in ("explicit", "other", "override", "explicit_only") else None,
+                        "tgtArrayShape": None if case["shape_out"] in ("missing", "explicit_only") else list(own_shape)}
     if case["kind"] in ("same", "shift") and case["algo"] == "interpolation":
         probes = [list(j) for j in np.ndindex(*out_shape)][:200]
         res["model_req"].update({"shift": [-d for d in case["shift"]], "srcShape": list(shape), "probes": probes})
